@@ -1338,6 +1338,26 @@ theorem stepCtx_sound (p : Prog) (k : Cache) (c : Ctx) (op : Op) (hk : Consisten
     | some v =>
       simp only [Option.toList, List.cons_append, List.nil_append] at hc
       exact ⟨inv_dropTmps (inv_refdown hc), by rw [handles_dropTmps]; show c2.handles.length = _; rw [hh]; exact h.hlen⟩
+  | calls fname texts =>
+    simp only [stepCtx]
+    obtain ⟨h1, h2, _, h4⟩ := mkArgs_spec c (texts.map Arg.tmp) h.inv
+    generalize mkArgs c (texts.map Arg.tmp) = r1 at h1 h2 h4
+    obtain ⟨c1, vs⟩ := r1
+    simp only at h1 h2 h4
+    have hc := inv_callByName p c1 k fname vs hk h1 h4
+    have hs := (skel_callByName p c1 k fname vs hk).1
+    generalize callByName p c1 k fname vs = r2 at hc hs
+    obtain ⟨c2, k1, r⟩ := r2
+    simp only at hc hs ⊢
+    have hh : c2.handles = c.handles := (handles_of_skel hs).trans h2
+    have hd := inv_dropTmps hc
+    cases r with
+    | none =>
+      simp only [Option.toList, List.nil_append] at hd
+      exact ⟨hd, by rw [handles_dropTmps, hh]; exact h.hlen⟩
+    | some v =>
+      simp only [Option.toList, List.cons_append, List.nil_append] at hd
+      exact ⟨inv_refdown hd, by show (dropTmps c2 c2.tmps).handles.length = _; rw [handles_dropTmps, hh]; exact h.hlen⟩
   | loop =>
     simp only [stepCtx]
     have hc := inv_loop p c k hk h.inv
